@@ -227,8 +227,12 @@ def replay_lam(geo, cases, perturb_first=False):
 
 
 def replay_lamf(geo, c, draws):
-    rng = rng_for("lamf", c["pat"])
+    near = int(c.get("near", 0))
+    rng = rng_for("lamf", list(c["pat"]) + [near])
     v = np.array([[s * 10.0 ** rng.uniform(-1, 1) for s in c["pat"]] for _ in range(draws)])
+    if near:  # close to the pole of the pattern's hemisphere: offsets of magnitude 10^-near
+        v[:, :2] *= 10.0 ** (-near)
+        v[:, 2] = np.sign(v[:, 2])
     v /= np.linalg.norm(v, axis=1)[:, None]
     with np.errstate(all="ignore"):
         X, Y = geo.lambert_equal_area(v[:, 0], v[:, 1], v[:, 2])
@@ -453,7 +457,7 @@ def main(tier):
         add(rec, c, info, ("lam", json.dumps(c["u"])))
     for c in by["lamf"]:
         rec, info = replay_lamf(geo, c, 50 if quick else 1000)
-        add(rec, c, info, ("lamf", tuple(c["pat"])))
+        add(rec, c, info, ("lamf", tuple(c["pat"]), c.get("near", 0)))
     for c in by["lift"]:
         rec, info = replay_lift(geo, c)
         add(rec, c, info, ("lift", tuple(c["X"]), tuple(c["Y"]), c["s"]))
